@@ -1537,7 +1537,14 @@ class Cell(Bucket):
         if name not in self.identity_groups:
             self.identity_groups[name] = IdentityGroup(count)
         else:
-            self.identity_groups[name].adjust(count)
+            ident_group = self.identity_groups[name]
+            ident_group.adjust(count)
+            # Apps keep the identity they hold until the next scheduling
+            # cycle, even if a previous adjustment made it invalid. Such
+            # identity is not available when the group grows again.
+            for app in six.itervalues(self.apps):
+                if app.identity_group_ref is ident_group:
+                    ident_group.available.discard(app.identity)
 
     def remove_identity_group(self, name):
         """Remove identity group.
